@@ -395,6 +395,8 @@ def _footer(F, rep, ser, de):
             wseq.append((ds[bi], "varint", _wrole(exs.operand(t["args"][1]))))
         elif c.endswith("Vec::<T, A>::extend_from_slice") and ds[bi] >= 1:
             wseq.append((ds[bi], "bytes", _wrole(exs.operand(t["args"][1]))))
+        elif c.endswith("Vec::<T, A>::extend_from_slice") and ds[bi] == 0 and exs.operand(t["args"][0]) == ("var", FOOTER_VAR[0]):
+            wseq.append((0, "append", _wrole(exs.operand(t["args"][1]))))
         elif c.endswith("Vec::<T, A>::push") and ds[bi] >= 1:
             wseq.append((ds[bi], "byte", fmt(exs.operand(t["args"][1]))))
         elif c.endswith("::write_all") and "BufWriter" in t.get("callee_disp", ""):
@@ -403,7 +405,7 @@ def _footer(F, rep, ser, de):
     want_w = [(0, "varint", "nstreams"), (1, "bytes", "name"), (1, "byte", "0"), (1, "varint", "nparts"), (1, "varint", "raw_size"),
               (2, "varint", "offset"), (2, "varint", "size"), (0, "file", "footer"), (0, "file", "le8(len(footer))")]
     rep.ob("C13-FOOT", "footer serialiser emits: count; per stream name, NUL, #parts, raw size; per part offset, size; then directory and 8-byte LE length",
-           wseq == want_w, detail="found %s" % ["%d:%s:%s" % x for x in wseq], site="%s:%d" % (ser.file, ser.line_lo), key="C13-FOOT | writer sequence")
+           wseq == want_w or wseq == want_w[:-2] + [(0, "append", "le8(len(footer))"), (0, "file", "footer")], detail="found %s" % ["%d:%s:%s" % x for x in wseq], site="%s:%d" % (ser.file, ser.line_lo), key="C13-FOOT | writer sequence")
     # reader sequence: read_varint results by role of their use
     rseq = []
     order = {b: i for i, b in enumerate(_rpo(de))}
